@@ -245,6 +245,8 @@ def gen_calls(rng, tier):
                       "nested": rng.choice([None, None, None, 0, 1, 2])})
         if how == "function" and rng.random() < 0.25:
             cases[-1]["stacked"] = True
+        if cases[-1]["body"][0] == "raise" and rng.random() < 0.3:
+            cases[-1]["extractor"] = rng.choice(["raise_base", "fields_base"])
     return cases
 
 
@@ -311,6 +313,13 @@ def impl_calls(case):
     msgs = []
     dest.add(msgs.append)
     _errors._error_extraction.registry.clear()
+    if case.get("extractor") == "raise_base":
+        # an extractor registered for a BASE class of what the function raises, which fails on it
+        def bad_extractor(e):
+            raise RuntimeError("extractor failed")
+        eliot.register_exception_extractor(Exception, bad_extractor)
+    elif case.get("extractor") == "fields_base":
+        eliot.register_exception_extractor(Exception, lambda e: {"xcode": 7})
 
     table = {}      # id(obj) -> number
 
@@ -497,6 +506,8 @@ def level_of(case):
 
 
 def model_calls(case):
+    if case.get("extractor"):
+        return None          # the model's registry is empty (C03 has the extractor theorems): statement only
     body, o = case["body"], case["opts"]
     if body[0] == "ret":
         b = "(fun _ => BReturned %s)" % to_coq(Z(body[1]))
@@ -624,6 +635,8 @@ def oracle_calls(case, obs):
                 "decorated saw %r" % (plain.get("how"), dec.get("how")))
     # -- exactly one action, faithful start message, truthful end message
     msgs = [dict((k, v) for k, v in mm) for mm in obs["msgs"]]
+    if case.get("extractor") == "raise_base" and case["body"][0] == "raise" and len(msgs) == 3 and "traceback" in msgs[1]:
+        del msgs[1]          # the failing extractor's own traceback: logged in the surrounding context, not in the action
     if len(msgs) != 2:
         return "a valid call logged %d messages, expected the start and the end of one action" % len(msgs)
     start, end = msgs
@@ -658,6 +671,8 @@ def oracle_calls(case, obs):
             return "the function raised but the action ended %r" % end.get("action_status")
         extra = {k: v for k, v in end.items() if k not in RESERVED}
         want_end = {"exception": "%s.%s" % EXC[case["body"][1]], "reason": ["exc"]}
+        if case.get("extractor") == "fields_base":
+            want_end["xcode"] = {"other": "int"}
         if extra != want_end:
             return "failed end message carries %r, expected %r" % (extra, want_end)
     return None
